@@ -7,45 +7,45 @@ import os
 VERIF = os.path.dirname(os.path.dirname(os.path.abspath(__file__)))
 
 P = {
- 'C01': ('static decision of R1.1-R1.8: untagged-response order automaton over the comparison generator CFG, EXPUNGE/EXISTS argument def-use, hide-expunged dominance in the three sequence-number handlers, fork-once and field ownership, index coherence, seq=index+1, view-before-merge',
+ 'C01': ('static decision of R1.1-R1.10: untagged-response order automaton over the comparison generator CFG, EXPUNGE/EXISTS argument def-use, hide-expunged dominance in the three sequence-number handlers, fork-once and field ownership, index coherence, seq=index+1, view-before-merge, every forked diff of the IDLE loop is written, per-command marks reset when a handler fails',
          'CFG order automaton + dominance + def-use + field-ownership enumeration (ast)'),
- 'C02': ('static decision of R2.1-R2.6: mutate=>log=>notify post-dominance at every dict mailbox mutation, expunge record never overwritten, no suspension inside the consume window, every session method returns a merged selection, merge applies both halves, maildir full diff',
+ 'C02': ('static decision of R2.1-R2.9: mutate=>log=>notify post-dominance at every dict mailbox mutation, expunge record never overwritten, no suspension inside the consume window, every session method returns a merged selection, merge applies both halves, maildir full diff, flag-key mirror coherence, diff machinery reads snapshots not live objects, change-log buckets / UID records dropped only when empty / absent',
          'post-dominance pairing + suspension-window path query + return-value provenance (ast CFG)'),
- 'C03': ('static decision of R3.1-R3.7: verbatim provenance of message bytes append->store->fetch, slice-bound soundness (no -1 stop sentinel), len/write agreement of Writeable subclasses, header/body partition, partial-range arithmetic, size source, COPY payload provenance',
+ 'C03': ('static decision of R3.1-R3.8: verbatim provenance of message bytes append->store->fetch, slice-bound soundness (no -1 stop sentinel), len/write agreement of Writeable subclasses, header/body partition, partial-range arithmetic, size source, COPY payload provenance, whole-section getters return the stored part, rfc822 unwrapping only for named parts, BODYSTRUCTURE octet counts measure what BODY[part] returns',
          'taint/provenance over allowed byte operations + slice-shape matching + sibling agreement (ast)'),
- 'C04': ('static decision of R4.1-R4.5: dict UID allocator discipline (form, lock on the same receiver, key = fresh UID), maildir allocator under with_write with increment, UIDNEXT derivation, APPENDUID/COPYUID pairing dataflow',
+ 'C04': ('static decision of R4.1-R4.7: dict UID allocator discipline (form, lock on the same receiver, key = fresh UID), maildir allocator under with_write with increment, UIDNEXT derivation, APPENDUID/COPYUID pairing dataflow, ascending-UID enumeration behind COPYUID, maildir MOVE drops the source record, UID list read under its lock',
          'field-ownership enumeration + lock-scope containment + def-use (ast)'),
- 'C05': ('static decision of R5.1-R5.7: command class hierarchy vs hand-transcribed RFC state table, handler exhaustiveness, gate dominance on every route to a handler, select-clears-first, close-always-deselects, logout shape, refused=>untouched, state-field ownership',
+ 'C05': ('static decision of R5.1-R5.9: command class hierarchy vs hand-transcribed RFC state table, handler exhaustiveness, gate dominance on every route to a handler, select-clears-first, close-always-deselects, logout shape, refused=>untouched, state-field ownership, every CLOSE return has deselected, truth-tested state classes define no __len__/__bool__',
          'table agreement + CFG dominance + who-may-call enumeration (ast)'),
- 'C06': ('static decision of R6.1-R6.7: loop progress of every parser loop, exception-escape sets at the parse and execution boundaries, recursion-cycle bounds on the resolved call graph, BYE on every loop-body escape, bound-before-allocation dominance, None-flow',
+ 'C06': ('static decision of R6.1-R6.13: loop progress of every parser loop, exception-escape sets at the parse and execution boundaries, recursion-cycle bounds on the resolved call graph, BYE on every loop-body escape, bound-before-allocation dominance, None-flow, continuation requests only where handled, stream-collecting loops test the fresh line, run-time regexes escape client text and do not let the client choose the number of unbounded quantifiers, int() only of bounded digit runs, third-party SASL calls under a ValueError handler',
          'loop-progress fixpoint + exception-escape analysis + SCCs over a resolved call graph (ast, re._parser)'),
- 'C07': ('static decision of R7.1-R7.8: quoted-string admission guard vs grammar, escape set language, direct QuotedString constructions, modutf7 output range, CRLF termination of every response writer, echo charset of tag/atom patterns, balanced delimiters, literal length agreement',
+ 'C07': ('static decision of R7.1-R7.10: quoted-string admission guard vs grammar, escape set language, direct QuotedString constructions, modutf7 output range, CRLF termination of every response writer, echo charset of tag/atom patterns, balanced delimiters, literal length agreement, client-chosen FETCH section parts echoed through a quoting serialiser, lazily rendered values written only with their content provider set',
          'regex-language facts (re._parser) + guard truth tables + post-dominance (ast)'),
- 'C08': ('static decision of R8.1-R8.3: client mailbox names reach filesystem sinks only through a validator on every call chain in both maildir layouts, INBOX guards before remove/rename, per-identity keying of the dict store',
+ 'C08': ('static decision of R8.1-R8.5: client mailbox names reach filesystem sinks only through a validator on every call chain in both maildir layouts, INBOX guards before remove/rename, per-identity keying of the dict store, the validated name is used as validated (no transform between validation and sink), no per-user state in class-level containers',
          'must-pass-through taint on the call graph + dominance (ast)'),
- 'C09': ('static decision of R9.1-R9.7: session-field ownership, authenticate->authorize->session chain, verify-or-raise in every backend authenticate, authorize truth table, LOGINDISABLED guard dominance, failure leaves fields untouched',
+ 'C09': ('static decision of R9.1-R9.9: session-field ownership, authenticate->authorize->session chain, verify-or-raise in every backend authenticate, authorize truth table, LOGINDISABLED guard dominance, failure leaves fields untouched, every _login return dominated by authenticate, privilege read from the authenticated identity only, no retained mutable default argument',
          'field ownership + dominance + boolean truth tables (ast)'),
- 'C10': ('static decision of R10.1-R10.8: STORE mode table, permitted-flag dataflow, addressed-set dataflow, EXPUNGE=delete(find_deleted), COPY/APPEND field preservation, \\Seen table, * resolution, MOVE/COPY sibling agreement',
+ 'C10': ('static decision of R10.1-R10.9: STORE mode table, permitted-flag dataflow, addressed-set dataflow, EXPUNGE=delete(find_deleted), COPY/APPEND field preservation, \\Seen table, * resolution, MOVE/COPY sibling agreement, backend update unconditional per addressed message, membership fields mirrored between insertion and removal, flag arithmetic on flags read from the store',
          'table extraction + def-use + sibling agreement (ast)'),
- 'C11': ('static decision of R11.1-R11.4: exception-contract agreement across MailboxSet siblings, wildcard translation regex language vs RFC, INBOX guards, INBOX rename leaves INBOX',
+ 'C11': ('static decision of R11.1-R11.7: exception-contract agreement across MailboxSet siblings, wildcard translation regex language vs RFC, INBOX guards, INBOX rename leaves INBOX, transfer functions of the offset-set wildcard matcher, existence check on every maildir get_mailbox return, component-boundary prefix for Maildir++ inferiors, line-oriented subscriptions file keeps names intact',
          'exception-escape sets + regex-language facts + dominance (ast, re._parser)'),
- 'C12': ('static decision of R12.1-R12.5: every mutator call in the session layer dominated by a read-only guard, \\Recent claim guard, CLOSE guard, readonly has one writer',
+ 'C12': ('static decision of R12.1-R12.6: every mutator call in the session layer dominated by a read-only guard, \\Recent claim guard, CLOSE guard, readonly has one writer, read-only selection never the recipient of the Recent mark of a new message',
          'CFG dominance of raise-guards over mutator call sites (ast)'),
- 'C13': ('static decision of R13.1-R13.6: parser-key <-> criteria dispatch exhaustiveness, flag/op tables vs RFC 3501 6.4.4, connectives, requirement covers data read, prefilter subset of conjuncts, UID/seq reporting',
+ 'C13': ('static decision of R13.1-R13.8: parser-key <-> criteria dispatch exhaustiveness, flag/op tables vs RFC 3501 6.4.4, connectives, requirement covers data read, prefilter subset of conjuncts, UID/seq reporting, sequence-set criteria bounds and OR requirement union, search-key identity covers the negation',
          'table extraction and agreement (ast)'),
- 'C14': ('static decision of R14.1-R14.3: no real suspension point between source removal and destination insert in move, loop of persistent appends needs rollback, raise-before-first-mutation',
+ 'C14': ('static decision of R14.1-R14.6: no real suspension point between source removal and destination insert in move, loop of persistent appends needs rollback, raise-before-first-mutation, UID chosen under the destination lock, maildir file without UID record removed again, rollback handler catches BaseException and the storage step is not detached, no self-held lock while a message is in transit',
          'suspension-classified path query + dominance (ast CFG)'),
  'C15': ('static decision of R15.1-R15.6: atomic-replace discipline incl. same-directory temp file, UID-list mutation only under with_write, mutate=>touch, file-before-index ordering, ack after write-back, lock released if entry fails',
          'pairing/ordering over CFG + who-may-call enumeration (ast)'),
- 'C16': ('static decision of R16.1-R16.4: un-timed wait guarded by a freshness predicate evaluated after arming, every mutation notifies, IDLE loop typestate, finite poll timeout',
+ 'C16': ('static decision of R16.1-R16.6: un-timed wait guarded by a freshness predicate evaluated after arming, every mutation notifies, IDLE loop typestate, finite poll timeout, predicate not evaluated after the position was overwritten, every collected IDLE update written, per-command marks reset on failure',
          'control-dependence + suspension-window path query (ast CFG)'),
- 'C17': ('static decision of R17.1-R17.7: \\Recent removed at every entry to the settable universe, stored/session recent complementarity, claim pairs with clearing without suspension, read-only never a recipient, RECENT count sources, claimed set materialised',
+ 'C17': ('static decision of R17.1-R17.9: \\Recent removed at every entry to the settable universe, stored/session recent complementarity, claim pairs with clearing without suspension, read-only never a recipient, RECENT count sources, claimed set materialised, COPY does not carry the source recent mark (both backends), maildir claim only after its own rename succeeded',
          'def-use + truth-table complementarity + dominance (ast)'),
- 'C18': ('static decision of R18.1-R18.5: cached raw span = consumed span, literal branches converge, command word normalisation, writer/reader format tables agree',
+ 'C18': ('static decision of R18.1-R18.8: cached raw span = consumed span, literal branches converge, command word normalisation, writer/reader format tables agree, modified-UTF-7 encoder escapes and range tests, all line input through the {n+}-collecting reader, parsers take string arguments by value not by wire spelling',
          'slice-bound equality + table agreement (ast, re._parser)'),
- 'C19': ('static decision of R19.1-R19.6: gate dominance before every script operation, _state ownership, command exhaustiveness, delete-active guard, rename carries active, verbatim put/get',
+ 'C19': ('static decision of R19.1-R19.7: gate dominance before every script operation, _state ownership, command exhaustiveness, delete-active guard, rename carries active, verbatim put/get, self-rename never reaches store-then-delete, sieve state only from verified credentials',
          'CFG dominance + dispatch exhaustiveness (ast)'),
- 'C20': ('static decision of R20.1-R20.6: reader admission inside the count mutex, acquire side effects undone on cancellation, release on all exits, exclusive create, async-with discipline at call sites, sibling agreement asyncio/threading',
+ 'C20': ('static decision of R20.1-R20.6: reader admission inside the count mutex, acquire side effects undone on cancellation, release on all exits, exclusive create, async-with discipline at call sites, sibling agreement asyncio/threading, lock file unlinked only by the waiter that created it',
          'lock-scope containment + cancellation-edge path queries (ast CFG)'),
 }
 
